@@ -28,5 +28,27 @@ def _ob(action, p0, xp, flags="EVLOOP_NONBLOCK", extra=(), tag="", **kw):
     return d
 
 def obligations(tier):
-    obs = [_ob(a, 1, 0) for a in ACTIONS]
+    obs = []
+    if tier == "quick":
+        combos = [(1, 0)]
+        extra_x = [("A_ACTIVE_X", 1, 2), ("A_DEFER_X", 1, 1), ("A_LATER_X", 2, 0)]
+    else:
+        combos = [(p0, xp) for p0 in (0, 1, 2) for xp in (0, 1, 2)]
+        extra_x = []
+    for (p0, xp) in combos:
+        for a in ACTIONS:
+            if a in ("A_NONE", "A_BREAK", "A_CONTINUE", "A_EXIT") and xp != 0: continue   # X unused
+            obs.append(_ob(a, p0, xp))
+    for (a, p0, xp) in extra_x:
+        obs.append(_ob(a, p0, xp))
+    # loop flags and return values
+    obs.append(_ob("A_NONE", 1, 0, flags="EVLOOP_ONCE", tag="_once"))
+    obs.append(_ob("A_NONE", 1, 0, flags="0", tag="_block"))
+    obs.append(_ob("A_EXIT", 1, 0, flags="EVLOOP_NO_EXIT_ON_EMPTY", tag="_noexit"))
+    obs.append(_ob("A_BREAK", 2, 0, flags="EVLOOP_NO_EXIT_ON_EMPTY", tag="_noexit"))
+    # max_dispatch_interval: callback budget per poll for priorities >= limit_callbacks_after_prio
+    obs.append(_ob("A_NONE", 1, 0, extra=["C03_MAXCB=1", "C03_LIMPRI=1"], tag="_maxcb1"))
+    if tier != "quick":
+        obs.append(_ob("A_ACTIVE_X", 2, 0, extra=["C03_MAXCB=2", "C03_LIMPRI=0"], tag="_maxcb2"))
+        obs.append(_ob("A_CONTINUE", 1, 0, flags="EVLOOP_ONCE", tag="_once"))
     return obs
